@@ -322,7 +322,7 @@ pub fn run(ctx: &mut Ctx) {
         }
     }
     // (2) random deep values with random spacings and Unicode whitespace
-    let n = ctx.share(30_000, 1_500_000);
+    let n = ctx.share(150_000, 3_000_000);
     for i in 0..n {
         if ctx.out_of_time() {
             ctx.report.inconclusive.push(format!("random workload cut at {} of {}", i, n));
